@@ -468,7 +468,8 @@ func generate0(suite string, seed uint64, i int) *Case {
 	switch suite {
 	case "e2e": // the whole documented grid except Splines (see known findings) and Greedy-random
 		edges, names := genGraph(r, g)
-		cfg := genCfg(r, cp{p1: []int{0, 1}, p2: []int{0, 1}, p4: []int{0, 1, 2, 3, 4}, bk: allBK, p5: []int{0, 1, 2, 4},
+		// p4 = 5 is PositioningNoop (documented "for testing purposes"): no coordinates, but the graph must still come back intact (C02)
+		cfg := genCfg(r, cp{p1: []int{0, 1}, p2: []int{0, 1}, p4: []int{0, 1, 2, 3, 4, 0, 1, 2, 3, 4, 5}, bk: allBK, p5: []int{0, 1, 2, 4},
 			virt: 1, mon: true, trace: true}, names)
 		return &Case{ID: id, Op: "layout", Cfg: cfg, Edges: edges, Arg: map[string]any{"repeat": 2.0, "montoggle": 1.0}}
 	case "e2e-rand": // Greedy with random node choice
